@@ -624,7 +624,8 @@ def ec_privkey_negate(secret, context=_secp.ctx):
     if len(secret) != 32:
         raise ValueError("Secret should be 32 bytes long")
     b = _copy(secret)
-    _secp.secp256k1_ec_privkey_negate(context, b)
+    if _secp.secp256k1_ec_privkey_negate(context, b) == 0:
+        raise ValueError("Failed to negate the secret")
     return b
 
 
